@@ -575,6 +575,9 @@ def known_open(pid, code, known):
 
 # ---------------------------------------------------------------- the e2e engine
 
+FAULT_RUN_CODES = {'C18': ('C18:1',)}
+
+
 def e2e_engine(pid, spec, tier, seed, workdir, res):
     """Generated histories: implementation vs model (projected) and monitors on the implementation."""
     runs = spec['e2e']
@@ -649,6 +652,11 @@ def e2e_engine(pid, spec, tier, seed, workdir, res):
                         nontrivial.add(hashlib.sha1(cases[cid].split('\n', 1)[1].encode()).hexdigest())
                     if v.startswith('bad'):
                         code = mk + ':' + v.split(':', 1)[1]
+                        # histories run with store faults: what a read returns may differ from what was written (damaged
+                        # or undecodable bytes), so verdicts that compare with the stored response as written do not apply;
+                        # what does: no panic / definite outcome (C10), no origin call under only-if-cached (C18 code 1)
+                        if '~f' in cid and code not in FAULT_RUN_CODES.get(mk, ()) and mk != 'C10':
+                            continue
                         kf = known_open(pid, code, known)
                         if kf:
                             res['known'].setdefault(kf['id'], dict(finding=kf, count=0, example=cid))
@@ -924,6 +932,29 @@ def encrypt_engine(pid, spec, tier, seed, workdir, res):
             if not known_open(pid, code, known):
                 res['violations'].append(dict(kind='monitor', code=code, case=l.strip()[:80],
                                               payload=dict(experiment=l.strip(), meaning='CONFIG: a way of enabling encryption; TAMPER: a modified file was accepted / wrong key / plaintext; TRANSPORT: tampered entry through the RoundTripper')))
+    # concurrent writers under the race detector: one nonce per write, no shared state between operations
+    ok, blog, _ = build_race_harness()
+    if not ok:
+        res['errors'].append('race-detector build of the harness failed: ' + blog[-800:])
+    else:
+        env = go_env()
+        env.update(dict(VERIF_OUT=out, VERIF_SEED=str(seed)))
+        rc3, o3, e3 = sh([os.path.join(BUILD, 'harness.race.test'), '-test.run', '^TestEncryptConcurrent$', '-test.count=1', '-test.timeout', '20m'], cwd=HARNESS, env=env, timeout=1500)
+        rlog = o3 + e3
+        res['evaluations'] += 1
+        kinds['exp:CONCURRENT'] = kinds.get('exp:CONCURRENT', 0) + 1
+        cp = os.path.join(out, 'encconc.txt')
+        cline = open(cp).read().strip() if os.path.exists(cp) else ''
+        if 'WARNING: DATA RACE' in rlog:
+            i = rlog.index('WARNING: DATA RACE')
+            if not known_open(pid, 'C17:concurrent-writers-race', known):
+                res['violations'].append(dict(kind='monitor', code='C17:concurrent-writers-race', case='encrypt-concurrent',
+                                              payload=dict(race_report=rlog[i:i + 5000], experiment=cline, how='harness/encrypt_test.go TestEncryptConcurrent built with -race: 8 goroutines x 150 Set/Get on one encrypted fscache')))
+        elif cline.endswith('BAD') or rc3 != 0:
+            if not known_open(pid, 'C17:concurrent', known):
+                res['violations'].append(dict(kind='monitor', code='C17:concurrent', case='encrypt-concurrent', payload=dict(experiment=cline, log=rlog[-1500:])))
+        elif not cline:
+            res['errors'].append('concurrent-writers experiment did not complete: ' + rlog[-800:])
     # the wiring grid against the model
     q = ''.join('ENC %s\n' % ' '.join(t[1:-1]) for t in wires)
     rc2, o, e = sh('./modelbin', cwd=MODEL, stdin=q)
@@ -1053,8 +1084,8 @@ def lateinval_engine(pid, spec, tier, seed, workdir, res):
 
 OVERLAP_SCENARIOS = {
     'C08': ['replace', 'second-variant-stored'],
-    'C19': ['second-variant-stored', 'second-variant-invalidated'],
-    'C20': ['second-variant-stale'],
+    'C19': ['second-variant-stored', 'second-variant-invalidated', 'invalidated'],
+    'C20': ['second-variant-stale', 'invalidated'],
 }
 OVERLAP_CODES = {
     'C08': ['replaced-representation-served', 'variant-lost'],
